@@ -8,9 +8,9 @@ import props as P
 TECH = {
  "C01": "runtime monitoring: generated-value round-trip oracle over generated and exhaustively swept inputs",
  "C02": "runtime monitoring: differential oracle against an independent reference codec, both directions, exhaustive small domains",
- "C03": "runtime monitoring: panic/abort/CPU-progress supervision + post-condition monitors under structure-aware hostile inputs; ASan and Miri in the thorough tier",
- "C04": "runtime monitoring: reference HMAC/key-derivation oracle with exhaustive single-bit fault injection",
- "C05": "runtime monitoring: online per-transaction final-outcome automaton over the event log of simulated histories + hook invariants",
+ "C03": "runtime monitoring: panic/abort/CPU-progress supervision + post-condition monitors under structure-aware hostile inputs; ASan, Miri and a libFuzzer+ASan supplement in the thorough tier",
+ "C04": "runtime monitoring: reference HMAC/key-derivation oracle with exhaustive single-bit and compound fault injection",
+ "C05": "runtime monitoring: online per-transaction final-outcome automaton over the event log of simulated histories with post-mortem probes (hooked state only for design-independent checks)",
  "C06": "runtime monitoring: closed-form retransmission-schedule model checked online on a virtual clock (exact ns)",
  "C07": "runtime monitoring: byte-classified must/must-not-deliver oracle + reference HMAC verification of every emitted packet over simulated conversations",
  "C08": "runtime monitoring: conversation tracker + RFC 8489 9.2.4 reference-server acceptance oracle over simulated conversations; known findings keyed by signature",
